@@ -7,6 +7,7 @@ package pubsub
 // invariants I1..I7 of DESIGN.md section 4 are evaluated from the statement.
 
 import (
+	"context"
 	"fmt"
 	"sort"
 	"strings"
@@ -82,6 +83,31 @@ func TestVerifC07Mesh(t *testing.T) {
 				}
 				vSettle(5 * time.Millisecond)
 				return &gsOp{Kind: "graftall", Topic: tn, Arg: uint64(k), T: time.Now(), After: w.nd.Snap()}
+			})
+			// the node publishes to a topic it has not joined (a fanout set appears), every member of that set goes away (the
+			// set stays, empty, until it expires), and the node joins the topic at once
+			w.extraOps = append(w.extraOps, func(w *gsWorld) *gsOp {
+				tn := w.topics[0]
+				if w.subs[tn] != nil {
+					return &gsOp{Kind: "noop"}
+				}
+				w.handle(tn).Publish(context.Background(), []byte(fmt.Sprintf("fanout-%d", len(w.hist))))
+				vSettle(5 * time.Millisecond)
+				k := 0
+				for p := range w.nd.Snap().Fanout[tn] {
+					if gp := w.byID[p]; gp != nil && gp.attached {
+						w.detach(gp)
+						k++
+					}
+				}
+				vSettle(20 * time.Millisecond)
+				s, err := w.handle(tn).Subscribe()
+				if err != nil {
+					return &gsOp{Kind: "noop"}
+				}
+				w.subs[tn] = s
+				vSettle(5 * time.Millisecond)
+				return &gsOp{Kind: "join_after_fanout_left", Topic: tn, Arg: uint64(k), T: time.Now(), After: w.nd.Snap()}
 			})
 			w.afterOp = func(op *gsOp) {
 				if op.After != nil {
